@@ -237,6 +237,96 @@ def time_sorted(repo, rep):
                      "times for files whose records are neither ascending nor exactly descending")
 
 
+_SORTERS = ("sorted", "sort", "unique", "argsort")
+
+
+def _comp_groups(tree):
+    """name -> (iterable name, wrapped in a sorting call?) for names assigned from a comprehension over a plain name."""
+    out = {}
+    for n in ast.walk(tree):
+        if isinstance(n, ast.Assign) and len(n.targets) == 1 and isinstance(n.targets[0], ast.Name):
+            v, wrapped = n.value, False
+            while isinstance(v, ast.Call) and v.args and call_name(v).split(".")[-1] in _SORTERS + ("array", "asarray", "list", "tuple", "stack", "concatenate", "concat"):
+                if call_name(v).split(".")[-1] in _SORTERS:
+                    wrapped = True
+                v = v.args[0]
+            if isinstance(v, (ast.ListComp, ast.GeneratorExp)) and len(v.generators) == 1 and isinstance(v.generators[0].iter, ast.Name):
+                out[n.targets[0].id] = (v.generators[0].iter.id, wrapped, n)
+    # the loop form the model normalises list comprehensions to:  X = [];  for d in R: X.append(e)
+    for n in ast.walk(tree):
+        if isinstance(n, ast.For) and isinstance(n.iter, ast.Name) and len(n.body) == 1 and isinstance(n.body[0], ast.Expr):
+            c = n.body[0].value
+            if isinstance(c, ast.Call) and isinstance(c.func, ast.Attribute) and c.func.attr == "append" and isinstance(c.func.value, ast.Name):
+                x = c.func.value.id
+                resorted = any((isinstance(a, ast.Assign) and any(isinstance(t, ast.Name) and t.id == x for t in a.targets) and isinstance(a.value, ast.Call)
+                                and call_name(a.value).split(".")[-1] in _SORTERS and a.lineno > n.lineno) or
+                               (isinstance(a, ast.Call) and isinstance(a.func, ast.Attribute) and a.func.attr == "sort" and unparse(a.func.value) == x)
+                               for a in ast.walk(tree))
+                out.setdefault(x, (n.iter.id, resorted, n))
+    return out
+
+
+def parallel_lists(repo, rep):
+    """R-C13-12: per-record lists drawn from one sequence of parsed records stay in that sequence's order together."""
+    rep.rule("R-C13-12", "lists drawn by comprehension from the same sequence of parsed records (timestamps, spectra, positions) are either all "
+                         "re-ordered together or none is: sorting one of them alone pairs every record's data with another record's label")
+    ctrl = _comp_groups(ast.parse("a = [d['x'] for d in R]\nb = sorted(d['t'] for d in R)"))
+    if not (ctrl.get("a", (0, 1))[1] is False and ctrl.get("b", (0, 0))[1] is True):
+        raise AnalysisError("R-C13-12 self-test: comprehension / sorted idioms not recognised")
+    ngroups = 0
+    for fi in repo.all_funcs():
+        if not fi.qualname.startswith("wavespectra.input."):
+            continue
+        g = {}
+        for name, (it, wrapped, node) in _comp_groups(fi.node).items():
+            g.setdefault(it, []).append((name, wrapped, node))
+        for it, members in g.items():
+            if len(members) < 2:
+                continue
+            ngroups += 1
+            w = [m for m in members if m[1]]
+            u = [m for m in members if not m[1]]
+            if w and u:
+                rep.fail("R-C13-12", fi.file, w[0][2].lineno, fi.qualname, f"{unparse(w[0][2])[:70]}  vs  {unparse(u[0][2])[:70]}",
+                         f"'{w[0][0]}' is sorted on its own while '{u[0][0]}' keeps the order of '{it}': whenever the records are not already in "
+                         "that order, each spectrum is paired with another record's value")
+            else:
+                rep.ok("R-C13-12", f"{fi.file}:{members[0][2].lineno} {fi.short}", f"{[m[0] for m in members]} over '{it}'", "same order for all")
+    rep.floor("R-C13-12", "groups of parallel per-record lists", ngroups, 1)
+
+
+def ndbc_date_columns(repo, rep):
+    """R-C13-11: NDBC ASCII files come with 4 (YY MM DD hh) or 5 (.. mm) date columns; the number of leading columns dropped before the
+    spectral columns must follow the detected header variant."""
+    rep.rule("R-C13-11", "NDBC ASCII: the number of leading date columns dropped from the table is derived from the detected header variant "
+                         "(4 or 5 date columns), at every place they are dropped")
+    fi = repo.func("wavespectra.input.ndbc_ascii.read_file")
+    variants = [a for a in ast.walk(fi.node) if isinstance(a, ast.Assign) and isinstance(a.value, ast.Dict) and len(a.value.keys) in (4, 5)
+                and isinstance(a.targets[0], ast.Name)]
+    names = {a.targets[0].id for a in variants}
+    if len(variants) < 2 or len(names) != 1:
+        raise AnalysisError("ndbc_ascii.read_file: the two date-column variants were not found")
+    dc = next(iter(names))
+    derived = {dc}
+    for _ in range(3):
+        for a in ast.walk(fi.node):
+            if isinstance(a, ast.Assign) and isinstance(a.targets[0], ast.Name) and any(isinstance(x, ast.Name) and x.id in derived for x in ast.walk(a.value)):
+                derived.add(a.targets[0].id)
+    n = 0
+    for s_ in ast.walk(fi.node):
+        if isinstance(s_, ast.Subscript) and isinstance(s_.value, ast.Attribute) and s_.value.attr == "iloc" and isinstance(s_.slice, ast.Tuple) \
+                and len(s_.slice.elts) == 2 and isinstance(s_.slice.elts[1], ast.Slice) and s_.slice.elts[1].lower is not None:
+            n += 1
+            lo = s_.slice.elts[1].lower
+            if any(isinstance(x, ast.Name) and x.id in derived for x in ast.walk(lo)):
+                rep.ok("R-C13-11", f"{fi.file}:{s_.lineno} read_file", unparse(s_)[:90], f"column offset derived from '{dc}'")
+            else:
+                rep.fail("R-C13-11", fi.file, s_.lineno, fi.qualname, unparse(s_)[:90],
+                         f"a fixed number of leading columns is dropped although the header variant detected above has 4 or 5 date columns: for the "
+                         "other variant the first frequency column is lost (or a date column is read as a spectral density)")
+    rep.floor("R-C13-11", "date-column drops in read_file", n, 2)
+
+
 def run(repo, rep, tier):
     rep.rule("R-C13-10", "every parameter of the functions behind this property is read (file readers): none is accepted and then ignored")
     from .shared import unused_parameters
@@ -258,6 +348,8 @@ def run(repo, rep, tier):
     spreading_norm(repo, rep, repo.func("wavespectra.input.ndbc_ascii.construct_spectra"), "R-C13-2")
     passthrough_and_product(repo, rep)
     time_sorted(repo, rep)
+    parallel_lists(repo, rep)
+    ndbc_date_columns(repo, rep)
     from .c11 import dir_permutation
     dir_permutation(repo, rep, "R-C13-6")
     rep.rule("R-C13-9", "read_swanow: files are visited in ascending name order and each NEWER file takes precedence over what was "
